@@ -196,6 +196,9 @@ pub mod ndt {
         open spec fn add_req(self, rhs: Array2<Fl>) -> bool { odim2(rhs) == odim2(self) }
         open spec fn add_spec(self, rhs: Array2<Fl>) -> Array2<Fl> { mk_a2(add2(a2(self), a2(rhs))) }
     }
+    /// `Array2::<f32>::zeros`: the generic shape is the f32 shape, and `f32::zero()` is 0.0
+    pub broadcast axiom fn ax_gdim2_fl(a: Array2<Fl>) ensures #[trigger] gdim2(a) == odim2(a);
+    pub broadcast axiom fn ax_zero_fl(x: Fl) ensures #[trigger] is_zero_elem(x) ==> x == fl(0real);
     /// shapes of element-wise results (ndarray keeps the left operand's shape)
     pub broadcast axiom fn ax_odim2_mk(s: Seq<Seq<Fl>>, r: int, c: int)
         requires rect2(s, r, c), r >= 0, c >= 0
@@ -220,23 +223,22 @@ pub mod ndt {
             ensures a1(r).len() == v1(*self).len(), forall |i: int| 0 <= i < v1(*self).len() ==> f.ensures((v1(*self)[i],), #[trigger] a1(r)[i])
         { unimplemented!() }
     }
-    #[verifier::external_body]
-    #[verifier::accept_recursive_types(T)]
-    pub struct ArrayView2G<'a, T> { _t: core::marker::PhantomData<&'a T> }
-    pub uninterp spec fn v2g<'a, T>(a: ArrayView2G<'a, T>) -> Seq<Seq<T>>;
-    impl<'a, T> ArrayView2G<'a, T> {
+    impl<'a, T> ArrayView2<'a, T> {
         /// `ArrayView2::from_shape((r, c), slice)`: Ok iff the slice has r*c elements; row-major
         #[verifier::external_body]
-        pub fn from_shape(shape: (usize, usize), s: &'a [T]) -> (r: Result<ArrayView2G<'a, T>, ShapeError>)
+        pub fn from_shape(shape: (usize, usize), s: &'a [T]) -> (r: Result<ArrayView2<'a, T>, ShapeError>)
             ensures (r is Ok) == (shape.0 * shape.1 == s@.len()),
-                r is Ok ==> v2g(r->Ok_0) == Seq::new(shape.0 as nat, |i: int| Seq::new(shape.1 as nat, |j: int| s@[i * shape.1 + j]))
+                r is Ok ==> v2(r->Ok_0).len() == shape.0 && forall |i: int| 0 <= i < shape.0 ==> (#[trigger] v2(r->Ok_0)[i]).len() == shape.1,
+                r is Ok ==> v2(r->Ok_0) == Seq::new(shape.0 as nat, |i: int| Seq::new(shape.1 as nat, |j: int| s@[i * shape.1 + j])),
+                // (row-major positions are positions of the slice: 0 <= i*c + j < r*c)
+                r is Ok ==> forall |i: int, j: int| 0 <= i < shape.0 && 0 <= j < shape.1 ==> 0 <= i * shape.1 + j < s@.len() && (#[trigger] v2(r->Ok_0)[i][j]) == s@[i * shape.1 + j]
         { unimplemented!() }
         #[verifier::external_body]
         pub fn mapv<F: Fn(T) -> Fl>(&self, f: F) -> (r: Array2<Fl>)
-            requires forall |i: int, j: int| 0 <= i < v2g(*self).len() && 0 <= j < v2g(*self)[i].len() ==> f.requires((#[trigger] v2g(*self)[i][j],))
-            ensures a2(r).len() == v2g(*self).len(), odim2(r).0 == v2g(*self).len(),
-                forall |i: int| 0 <= i < v2g(*self).len() ==> (#[trigger] a2(r)[i]).len() == v2g(*self)[i].len(),
-                forall |i: int, j: int| 0 <= i < v2g(*self).len() && 0 <= j < v2g(*self)[i].len() ==> f.ensures((v2g(*self)[i][j],), #[trigger] a2(r)[i][j])
+            requires forall |i: int, j: int| 0 <= i < v2(*self).len() && 0 <= j < v2(*self)[i].len() ==> f.requires((#[trigger] v2(*self)[i][j],))
+            ensures a2(r).len() == v2(*self).len(), odim2(r).0 == v2(*self).len(), v2(*self).len() > 0 ==> odim2(r).1 == v2(*self)[0].len(),
+                forall |i: int| 0 <= i < v2(*self).len() ==> (#[trigger] a2(r)[i]).len() == v2(*self)[i].len(),
+                forall |i: int, j: int| 0 <= i < v2(*self).len() && 0 <= j < v2(*self)[i].len() ==> f.ensures((v2(*self)[i][j],), #[trigger] a2(r)[i][j])
         { unimplemented!() }
     }
 
